@@ -67,9 +67,33 @@ CLAIMED = {
                 "chain through all symbolic constants consistent with the byte order of the users' names", "7.1 C12",
             "TLC; bounded three-valued evaluation (an axiom is reported only when definitely false on a window)",
             "TLA+ standard interpretation + TLC evaluation of anthem's own axioms in recorded problems", "tla-syntax"),
+    "C13": (MC, "Outline.tla (sequencing of outline problems as a state machine) is model-checked for every outline of <= 3 entries; generated "
+                "outlines are run through anthem and TLC validates acceptance against the acceptance predicates with the evolving taken set, "
+                "the sequencing condition on the observed problem list, and base case / inductive step against F(n) and F(N) -> F(N+1) "
+                "computed by assigning the induction variable", "7.1 C13",
+            SEM_NOTE + "; 'occurs nowhere in the task' read as the code's taken-predicate set (DESIGN 7.0)",
+            "TLA+ state machine of outline sequencing + acceptance predicates, TLC model checking and trace validation", "tla-pipeline"),
+    "C14": (EX, "program texts derived by TLC from the grammar with loose parenthesisation and every term shape of depth <= 2 are parsed, "
+                "printed, parsed and printed again; TLC compares the two trees and the two texts", "7.1 C14",
+            "TLC-generated texts; trees compared through the mechanical serializer; exploration, not exhaustive beyond depth 2",
+            "TLA+ grammar-driven text generation + TLC comparison of print/parse round trips", "tla-syntax"),
+    "C15": (EX, "theory / specification / user-guide texts derived by TLC from the grammar (all sort spellings, prefix chains, chained "
+                "comparisons, roles, directions) and every text translate and simplify print for generated programs are round-tripped; for "
+                "the outputs the in-memory theory is also compared with the theory its printed text parses to", "7.1 C15",
+            "as C14", "TLA+ grammar-driven text generation + TLC comparison of print/parse round trips", "tla-syntax"),
+    "C16": (EX, "Cli.tla gives the life cycle of a process (terminal states: status 0/1/2, diagnostic if not 0; no panic, signal or "
+                "non-termination); grammar-derived texts, repository files, edge texts and their token-level mutations are run through every "
+                "applicable command and each run is validated by TLC as an outcome of the model", "7.1 C16",
+            "token-level grammar-aware mutation, not byte-level fuzzing; time limit 10 s (re-run alone with 40 s) decides non-termination",
+            "TLA+ life-cycle model + TLC validation of recorded process runs on grammar-derived and mutated inputs", "tla-pipeline"),
     "C17": (TV, "for every generated (formula, variable, term) TLC checks Sat(F[x:=t], e) = Sat(F, e[x := value of t]) for every "
                 "interpretation and assignment, and the free-variable equation", "7.1 C17", SEM_NOTE,
             "TLA+ semantics + TLC trace validation of Formula::substitute", "tla-sem"),
+    "C18": (EX, "SimplifyLoop.tla models the fixpoint strategy; the harness drives the loop pass by pass (<= 64) and TLC validates the hash "
+                "sequence (no revisit, stops, library loop returns the same formula, result is a fixed point); every command is run twice "
+                "in separate processes and hash-order-sensitive verify tasks five times, outputs compared byte for byte by TraceCli.tla",
+            "7.1 C18", "termination explored with a pass bound, not proved; hash-seed nondeterminism observed, not modelled",
+            "TLA+ model of the fixpoint loop + TLC validation of driven pass sequences; repeated-run comparison", "tla-pipeline"),
     "C19": (TV, "for C02/C03 tasks under ALL combinations of --no-simplify, --no-eq-break, --decomposition (and mu for strong), TLC checks "
                 "for every enumerated interpretation that 'some problem of the direction is refuted' has the same value in every family",
             "7.1 C19", SEM_NOTE, "TLC comparison of the emitted problem families (no reference semantics involved)", "tla-sem"),
